@@ -45,13 +45,13 @@ const (
 )
 
 type c32Endpoint struct {
-	label     string
-	owner     *c32Party
-	p         *network.Peer
-	authed    bool
-	authedID  module.PeerID
+	label       string
+	owner       *c32Party
+	p           *network.Peer
+	authed      bool
+	authedID    module.PeerID
 	authedBytes []byte // the identity as bytes at the moment of authentication (peer ids are shared objects)
-	authCount int
+	authCount   int
 	// what the remote side presented in this session (set by the adversary script; nil for honest remotes)
 	presentedPub, presentedSig []byte
 	attack                     string
